@@ -47,6 +47,127 @@ CHECKS = {
         note="Trusted: oracle DP (cross-checked against brute force in every worker), stand-in ILP solver (self-tested "
              "against brute force); says nothing about real CPLEX numerics.",
         design="6/C05"),
+    "C06": dict(
+        technique="differential property-based testing (Hypothesis) against per-group subset DP; recording-proxy auxiliary",
+        text="parcons_partition is checked to be a partition whose best consistent ranking (per-group DP under the full "
+             "instance's costs) reaches the global DP optimum; ParCons over a grid of exact bounds x auxiliaries "
+             "(wrapped in a recording proxy) x solver environments must respect and report that partition, and flag "
+             "'necessarily optimal' exactly when the proxy was never called; every configuration that sets the flag is "
+             "compared with the DP optimum.",
+        note="Trusted: oracle DP, own SCC routine only for labels (the library's partition is validated through the "
+             "DP, not compared with the oracle's); stand-in solver for CPLEX paths.",
+        design="6/C06"),
+    "C07": dict(
+        technique="property-based testing (Hypothesis) against the enumerated set of ALL optimal consensuses; reference predicate for consistent_with",
+        text="For generated instances (n<=6, thorough 7) every optimal consensus is enumerated by DP back-tracking and "
+             "must respect the ParFront partition, which must merge consecutive ParCons groups in order; "
+             "consistent_with is compared with a reference predicate on generated (partition, consensus) pairs incl. "
+             "near misses and foreign universes.",
+        note="Dyadic penalties only (exact ties); instances with >3000 optima skipped and counted.",
+        design="6/C07"),
+    "C08": dict(
+        technique="property-based testing (Hypothesis): exhaustive re-scoring of every single-element move of every returned ranking",
+        text="Every BioConsert configuration (default, BioCo, starters) on generated instances; each returned ranking is "
+             "checked against all single-element moves (join another bucket / new bucket at any position) with exact "
+             "score deltas from the oracle's pair costs; improvement beyond the 0.001 threshold is a violation.",
+        note="Trusted: oracle pair costs. Local optimality is with respect to the moves named in the statement.",
+        design="6/C08"),
+    "C09": dict(
+        technique="property-based testing (Hypothesis) with recording-proxy starters",
+        text="BioConsert with no starters / starter lists wrapped in recording proxies: exact score of the result is "
+             "compared with every completed input ranking and the all-tied ranking, or with each consensus a starter "
+             "actually returned; all returned rankings must share the score; BioCo<=Borda and BioConsert<=PickAPerm run "
+             "directly.",
+        note="Trusted: oracle scores; KwikSort starter seeded by a Hypothesis-drawn integer.",
+        design="6/C09"),
+    "C10": dict(
+        technique="property-based testing (Hypothesis) against a reference set of minimal candidates",
+        text="PickAPerm on complete datasets with any dyadic scheme and incomplete datasets with unifying multiples / "
+             "near-unifying / other schemes: returned rankings must be (completed) input rankings of minimal exact "
+             "score, all distinct minimal ones when requested, exactly one otherwise; non-unifying scheme on "
+             "incomplete data must be refused with a corankco exception.",
+        note="Dyadic penalties only (exact ties).",
+        design="6/C10"),
+    "C11": dict(
+        technique="exhaustive enumeration of pivot schedules (checker-owned RNG) + property-based testing (Hypothesis)",
+        text="The pivot chooser is rebound so that the checker owns the schedule; all pivot sequences are enumerated "
+             "for n<=5 (thorough 6) and sampled above; coherent cheapest-placement relations must give the induced "
+             "ranking for every schedule, identical rankings must be returned unchanged, and every element must sit "
+             "relative to the pivot of its recursion step as the reference placement says.",
+        note="Dyadic penalties only; falls back to sampled schedules (reported in evidence) if the chooser is no "
+             "longer consulted.",
+        design="6/C11"),
+    "C12": dict(
+        technique="property-based testing (Hypothesis): reference model in exact rationals + metamorphic relations",
+        text="Both Borda variants on the four accepted scheme families and their dyadic multiples: consensus must equal "
+             "the grouping by exact mean positional score (unifying: missing as last bucket; induced: skipped); "
+             "invariance under permuting rankings and renaming elements; other schemes on incomplete data must raise "
+             "ScoringSchemeNotHandledException.",
+        note="Family membership decided by exact proportionality on all 12 penalties.",
+        design="6/C12"),
+    "C13": dict(
+        technique="property-based testing (Hypothesis) against reference victories/equalities from exact pair costs",
+        text="Copeland's consensus, per-element scores and victory/equality/defeat triples are compared with the "
+             "reference computed from exact pair costs; counts sum to n-1, scores to n(n-1)/2, dictionaries keyed by "
+             "exactly the universe.",
+        note="Dyadic penalties only.",
+        design="6/C13"),
+    "C14": dict(
+        technique="property-based testing (Hypothesis) over configurations x schemes x complete/incomplete datasets",
+        text="For every configuration (incl. nested starters/auxiliaries) the relevance predicate must return a bool; "
+             "True implies a well-formed consensus on incomplete data; complete data is never refused; for Borda, "
+             "PickAPerm and BioConsert started from them refusal <=> predicate False.",
+        note="IncompatibleArgumentsException (optimize=True with all rankings requested) is a documented usage error.",
+        design="6/C14"),
+    "C15": dict(
+        technique="stateful property-based testing (Hypothesis RuleBasedStateMachine): deep-snapshot invariant + fresh-copy differential",
+        text="Histories of algorithm runs, score/description reads, partition computations, candidate scoring, dataset "
+             "views and scheme operations on shared objects; after every step the deep snapshot of dataset and scheme "
+             "must equal the initial one and each result must equal the same call on fresh copies; non-KwikSort "
+             "configurations called twice must agree.",
+        note="KwikSort made repeatable by seeding; stand-in solver for CPLEX paths.",
+        design="6/C15"),
+    "C16": dict(
+        technique="stateful property-based testing (Hypothesis RuleBasedStateMachine) against a reference model of the dataset",
+        text="Histories of remove_elements / presence-rate filtering / remove_empty_rankings and derive-and-continue "
+             "(unification, projections by elements and by ids) with a reference model; after every step all "
+             "cross-view invariants (universe, both id maps, types, flags, matrices) and model equality are checked; "
+             "every Ranking source is checked for positions/domain/size/length agreement.",
+        note="Ambiguous integer-like names ('-5', '1_0') are not generated; empty rankings ignored after "
+             "remove_elements (unspecified).",
+        design="6/C16"),
+    "C17": dict(
+        technique="property-based testing (Hypothesis): pairs equal by construction / near misses / independent, 16 hash seeds",
+        text="Dataset equality is compared with multiset-of-rankings equality on the model for pairs built to be equal "
+             "(permuted rankings, re-inserted bucket members incl. hash-colliding families, other names), near misses "
+             "and independent pairs; reflexivity, symmetry, != and agreement with a Ranking.__eq__ matching.",
+        note="One PYTHONHASHSEED per shard.",
+        design="6/C17"),
+    "C18": dict(
+        technique="property-based testing (Hypothesis) + coverage-guided fuzzing (atheris/libFuzzer) with round-trip and totality oracles",
+        text="Round trips of rankings (brace / bracket notation, padding, name prefix) and of datasets through files "
+             "over the stated alphabet; arbitrary text / file content over the format alphabet must parse or raise "
+             "ValueError (EmptyDatasetException for files) only; atheris drives the hand-written scanner with the same "
+             "oracles inside the target; hangs caught by a C-level watchdog.",
+        note="'No hang' is a bounded-time observation. libFuzzer pinning is approximate; saved inputs are the "
+             "reproducible unit.",
+        design="6/C18"),
+    "C19": dict(
+        technique="exhaustive enumeration of finite grids (3^12 tuples; pairs of the 2916 valid grid schemes) + property-based testing (Hypothesis)",
+        text="Validation is decided for all 531441 twelve-tuples over {0,1,2} plus generated malformed shapes/types/"
+             "negative values; scaling is checked exactly incl. score homogeneity; equivalence and its complete-"
+             "rankings variant are compared with exact proportionality on grid pairs (all 8.5M in thorough) and "
+             "generated pairs; nicknames follow.",
+        note="Exhaustive inside the grid only; NaN/inf/bool penalties outside the statement.",
+        design="6/C19"),
+    "C20": dict(
+        technique="property-based testing (Hypothesis) with the generators' RNG owned by the checker; per-step invariant",
+        text="randint/shuffle used by the generators are rebound to a Hypothesis-drawn tape; every Markov move is "
+             "wrapped to check the dense-numbering invariant after each step, and each move is also called directly on "
+             "generated dense states; results are checked for shape, completeness, counts and the only documented "
+             "failure.",
+        note="n=0 / m=0 not generated (undocumented).",
+        design="6/C20"),
 }
 
 SETUP = ("/venv/bin/python -c 'import hypothesis' 2>/dev/null || /venv/bin/pip install --no-index --find-links "
